@@ -116,18 +116,18 @@ def _run_family(fam, tier, seed, binp, work):
         rec = json.loads(line)
         ev = rec["ev"]
         if (rec["tr"], rec["i"]) in want:
-            ctx["%d/%d" % (rec["tr"], rec["i"])] = dict(ev=ev, code=rec["code"], log=rec.get("log", "")[:300], calls=rec.get("calls"),
+            ctx["%d/%d" % (rec["tr"], rec["i"])] = dict(ev=ev, code=rec.get("code", 0), log=rec.get("log", "")[:300], calls=rec.get("calls"),
                                                         info=rec.get("info"))
         if ev["act"] == "Reset":
             continue
-        okk = "ok" if rec["code"] == 0 else "rej"
+        okk = "ok" if rec.get("code", 0) == 0 else "rej"
         acts["%s:%s:%s" % (ev["act"], ev.get("tag", "gen"), okk)] += 1
         stats["steps"] += 1
         stats[okk] += 1
-        distinct.add(C.sha(json.dumps(ev, sort_keys=True), json.dumps(rec["st"], sort_keys=True)))
+        distinct.add(C.sha(json.dumps(ev, sort_keys=True), json.dumps(rec.get("st", rec.get("status")), sort_keys=True)))
         k = "%s:%s" % (ev["act"], okk)
         if k not in samples:
-            samples[k] = dict(ev=ev, code=rec["code"], log=rec.get("log", "")[:160], calls=rec.get("calls"))
+            samples[k] = dict(ev=ev, code=rec.get("code", 0), log=rec.get("log", "")[:160], calls=rec.get("calls"), status=rec.get("status"))
     for x in res["bad"] + res["div"]:
         x["ctx"] = ctx.get("%d/%d" % (x["tr"], x["i"]))
     return dict(family=fam["name"], tier=tier, seed=seed, designs=designs, n_behaviours=len(behs),
